@@ -8,7 +8,8 @@ SPEC = {
             "(metadynamics), delete bias x, delete variable x, reset, step}, each on a fresh module (ASan build) followed by "
             "two steps; in EVERY intermediate state: dependency invariant on every object, atoms held == atoms of live "
             "objects, no error from a legal operation; sequences with deletions are compared with the same history with the "
-            "deleted objects' operations filtered out; states = distinct final observation records, transitions = operations",
+            "deleted objects' operations filtered out; states = distinct final observation records, transitions = operations"
+            " Later additions: a sixth bias in the alphabet (two-variable ABF with hideJacobian sharing a variable with the one-variable one); every history of length <= 4 over {define an unnamed variable, delete the variable at position p} followed by one more unnamed definition.",
     "assumptions": ["a deletion of a variable deletes the biases that use it (documented behaviour): the filtered history drops them too",
                     "fixed object definitions (3 variables, 5 biases); positions and system forces scripted"],
 }
